@@ -7,6 +7,9 @@ import (
 	"bytes"
 	"fmt"
 	"sort"
+	"strings"
+	"sync"
+	"time"
 
 	"go.minekube.com/common/minecraft/component"
 
@@ -46,6 +49,24 @@ func perms(xs []int, k int) [][]int {
 	return out
 }
 
+// gatedWriter records what is written and, after the FIRST Write, waits until it is released
+type gatedWriter struct {
+	buf    bytes.Buffer
+	n      int
+	paused chan struct{}
+	resume chan struct{}
+}
+
+func (g *gatedWriter) Write(p []byte) (int, error) {
+	g.buf.Write(p)
+	g.n++
+	if g.n == 1 {
+		close(g.paused)
+		<-g.resume
+	}
+	return len(p), nil
+}
+
 func actsTerm(a []int) string {
 	return lib.ListOf(a, func(i int) string { return lib.N(uint64(i)) })
 }
@@ -58,7 +79,7 @@ func main() {
 	out.Rule = "handshake, status, keep-alive, compression, transfer, login plugin messages, encryption request/response, login success, plugin message, player-info remove: " +
 		"every registration at the protocols on both sides of each format change, generated values; login start with/without key and holder; disconnect with a plain text reason in every state; " +
 		"player-info update: every subset of the actions in canonical order, every permutation of 2, of 3 and of 4 actions (quick: all 2-permutations, samples of the 3- and 4-permutations; thorough: all 336 and 1680) with 0-3 entries; " +
-		"non-trivial = non-empty body"
+		"concurrency: staged pairs (viewer A held after its first write while viewer B with another action set is encoded) and 8 goroutines encoding their own updates in parallel (every distinct output judged); non-trivial = non-empty body"
 	era := map[int]bool{}
 	for _, v := range eraVersions {
 		era[v] = true
@@ -222,6 +243,123 @@ func main() {
 			emit("playerinfo.Upsert", r, lib.App("Check.C07.KUpsert", actsTerm(acts)), pktgen.DumpAt(pk, r.Proto), b,
 				map[string]any{"actions": acts, "entries": len(pk.Entries)}, fmt.Sprintf("actions=%d", len(acts)), fmt.Sprintf("canonical=%v", canon))
 		}
+	}
+	// ---- concurrency: player-info updates for different viewers are encoded at the same time (every connection has
+	// its own encoder); each output must still decode, with the vanilla reference, to ITS OWN intended values ----
+	if len(upsertRegs) > 0 {
+		r := upsertRegs[len(upsertRegs)-1] // the newest protocol (all eight actions exist)
+		mk := func(acts []int, g *pktgen.G) *playerinfo.Upsert {
+			var as []playerinfo.UpsertAction
+			for _, a := range acts {
+				as = append(as, playerinfo.UpsertActions[a])
+			}
+			pk := &playerinfo.Upsert{}
+			g.Upsert(pk, as)
+			for len(pk.Entries) < 2 { // at least two entries so that the per-entry loop runs after the first write
+				pk.Entries = append(pk.Entries, &playerinfo.Entry{ProfileID: g.UUID(), Listed: true, Latency: 300, GameMode: 1, ListOrder: 7, ShowHat: true})
+			}
+			for _, e := range pk.Entries {
+				e.DisplayName, e.RemoteChatSession = nil, nil
+				if e.Profile.Name == "" {
+					e.Profile.Name = "viewer"
+				}
+			}
+			return pk
+		}
+		emitUpsert := func(pk *playerinfo.Upsert, acts []int, b []byte, how string) {
+			emit("playerinfo.Upsert", r, lib.App("Check.C07.KUpsert", actsTerm(acts)), pktgen.DumpAt(pk, r.Proto), b,
+				map[string]any{"actions": acts, "entries": len(pk.Entries), "concurrency": how}, "concurrency="+how)
+		}
+		// (a) staged: A's Encode is held after its first Write, B (different action set) is encoded completely, A resumes
+		pairs := [][2][]int{{{3, 4}, {0, 2, 5}}, {{0, 1, 2, 3, 4, 5, 6, 7}, {4}}, {{2}, {3, 6, 7}}, {{0, 3}, {2, 4, 6}}}
+		for _, pr := range pairs {
+			g := &pktgen.G{R: rng.Fork(), Proto: r.Proto, Dir: r.Dir, State: r.StateName}
+			pa, pb := mk(pr[0], g), mk(pr[1], g)
+			gw := &gatedWriter{paused: make(chan struct{}), resume: make(chan struct{})}
+			doneA := make(chan error, 1)
+			go func() { doneA <- util.RecoverFunc(func() error { return pa.Encode(r.Ctx(), gw) }) }()
+			select {
+			case <-gw.paused:
+			case <-time.After(10 * time.Second):
+				panic("staged upsert: viewer A never reached its first write")
+			}
+			bb, errB := encode(pb, r)
+			close(gw.resume)
+			var errA error
+			select {
+			case errA = <-doneA:
+			case <-time.After(10 * time.Second):
+				panic("staged upsert: viewer A never finished")
+			}
+			if errA != nil || errB != nil {
+				rejected++
+				continue
+			}
+			emitUpsert(pa, pr[0], gw.buf.Bytes(), "staged-A")
+			emitUpsert(pb, pr[1], bb, "staged-B")
+		}
+		// (b) unstaged stress: 8 goroutines encode their own packets in parallel; every output is judged - identical
+		// outputs of the same packet are emitted once (the judge is a function of packet and bytes)
+		const workers, perWorker = 8, 4
+		iters := 3000
+		if f.Tier != "quick" {
+			iters = 20000
+		}
+		type wp struct {
+			acts []int
+			pk   *playerinfo.Upsert
+			seen map[string]bool
+		}
+		sets := [][]int{{0}, {2}, {3}, {4}, {6}, {7}, {2, 3}, {3, 4}, {4, 6}, {0, 2}, {0, 3, 4}, {2, 4, 7}, {3, 6, 7}, {0, 2, 3, 4}, {2, 3, 4, 6, 7}, {0, 2, 3, 4, 6, 7},
+			{0, 4}, {2, 6}, {3, 7}, {0, 7}, {4, 7}, {2, 3, 6}, {0, 3, 6}, {0, 2, 7}, {3, 4, 6}, {2, 4}, {0, 6}, {6, 7}, {0, 3}, {2, 7}, {3, 4, 7}, {0, 2, 4}}
+		var all [workers][perWorker]*wp
+		for w := 0; w < workers; w++ {
+			for k := 0; k < perWorker; k++ {
+				g := &pktgen.G{R: rng.Fork(), Proto: r.Proto, Dir: r.Dir, State: r.StateName}
+				acts := sets[(w*perWorker+k)%len(sets)]
+				all[w][k] = &wp{acts: acts, pk: mk(acts, g), seen: map[string]bool{}}
+			}
+		}
+		var wg sync.WaitGroup
+		for w := 0; w < workers; w++ {
+			wg.Add(1)
+			go func(w int) {
+				defer wg.Done()
+				for i := 0; i < iters; i++ {
+					p := all[w][i%perWorker]
+					var b bytes.Buffer
+					if err := util.RecoverFunc(func() error { return p.pk.Encode(r.Ctx(), &b) }); err != nil {
+						p.seen["!"+err.Error()] = true
+						continue
+					}
+					if len(p.seen) < 8 {
+						p.seen[string(b.Bytes())] = true
+					}
+				}
+			}(w)
+		}
+		wg.Wait()
+		stressOutputs := 0
+		for w := 0; w < workers; w++ {
+			for k := 0; k < perWorker; k++ {
+				p := all[w][k]
+				var outs []string
+				for o := range p.seen {
+					outs = append(outs, o)
+				}
+				sort.Strings(outs)
+				for _, o := range outs {
+					if strings.HasPrefix(o, "!") {
+						rejected++
+						continue
+					}
+					stressOutputs++
+					emitUpsert(p.pk, p.acts, []byte(o), "stress")
+				}
+			}
+		}
+		out.Extra("upsert_concurrency", map[string]any{"staged_pairs": len(pairs), "stress_goroutines": workers, "stress_encodes": workers * iters,
+			"stress_distinct_outputs_judged": stressOutputs, "stress_packets": workers * perWorker})
 	}
 	_ = chat.SystemMessageType
 	frag, _ := pktgen.FragmentNames()
